@@ -58,6 +58,7 @@ func (g *Gen) instr(b *ssa.BasicBlock, ins ssa.Instruction, h Heap) Heap {
 		if cv.S == SStr {
 			g.safety("bounds", x.Pos(), guard, and(sx("<=", "0", iv.T), sx("<", iv.T, sx("slen", cv.T))), "index")
 			g.define(x, Val{T: sx("sat", cv.T, iv.T), S: SInt, Ty: x.Type()})
+			g.S.assert(g.typeAssume(g.vals[x]))
 		} else {
 			g.vals[x] = g.fresh(x.Type(), "index")
 		}
@@ -554,6 +555,7 @@ func (g *Gen) lookup(b *ssa.BasicBlock, x *ssa.Lookup, h Heap) {
 	if cv.S == SStr {
 		g.safety("bounds", x.Pos(), guard, and(sx("<=", "0", kv.T), sx("<", kv.T, sx("slen", cv.T))), "index")
 		g.define(x, Val{T: sx("sat", cv.T, kv.T), S: SInt, Ty: x.Type()})
+		g.S.assert(g.typeAssume(g.vals[x]))
 		return
 	}
 	mt, ok := x.X.Type().Underlying().(*types.Map)
